@@ -195,6 +195,8 @@ pub enum Op {
     SendPark { slot: u16, script: Vec<PStep>, polls: u8 },
     /// await a parked send / consume future to completion
     AwaitParked { slot: u16 },
+    /// the handle in `slot` is dropped while the client's thread is unwinding from a panic (which the client catches)
+    DropPanicking { slot: u16 },
     /// `owning.consume()` creates a lazy future that owns the OwningAddr; it is kept un-polled in a new slot
     ConsumePark { slot: u16 },
     /// L2: spin until `parties` clients have arrived at rendezvous `id`, then spin for `jitter` x 10 ns, so that the
